@@ -38,11 +38,15 @@ def scheme(kind, rng):
         def f(ns):
             p = list(ns); rng.shuffle(p); return dict(zip(ns, p))
         return f
+    if kind == "long-prefix":      # long names that agree in their first 16 / 32 characters; a non-ASCII one
+        return lambda ns: {n: ["$TemperatureReadingCelsius", "$TemperatureReadingKelvin", "$A_name_of_more_than_thirty_two_characters_1",
+                               "$A_name_of_more_than_thirty_two_characters_2", "$\u00c9t\u00e9", "$\u00c9t\u00e9s", "$TemperatureReading", "$A_name_of_more_than_thirty_two_characters_"][k % 8] + ("" if k < 8 else str(k))
+                           for k, n in enumerate(ns)}
     def fresh(ns):                 # unrelated fresh names, different in every clause
         return {n: "$%s%d" % (rng.choice(["Var", "q", "Tmp_", "Z"]), rng.randrange(1000)) + str(k) for k, n in enumerate(ns)}
     return fresh
 
-KINDS = ["same-names", "query-names", "permute", "fresh"]
+KINDS = ["same-names", "query-names", "permute", "fresh", "long-prefix"]
 
 def cases(tier, rng):
     out = []
@@ -64,6 +68,7 @@ def cases(tier, rng):
     def text_scheme(kind):
         if kind == "suffix": return lambda ns: {n: "$X_%d" % k for k, n in enumerate(ns)}
         if kind == "prefix": return lambda ns: {n: "$V" + "a" * k for k, n in enumerate(ns)}
+        if kind == "long-prefix": return scheme("long-prefix", rng)
         return lambda ns: {n: "$%s%d" % (rng.choice(["Long_name_", "x", "Q9"]), k) for k, n in enumerate(ns)}
     nt = 60 if tier == "quick" else 1200
     for k in range(nt):
@@ -72,7 +77,7 @@ def cases(tier, rng):
         ops = [progs.build_text(0, progs.query_text(q))] + [progs.ask(0)] * rng.choice([5, 8])
         def as_text(rs): return "(hist (kb-text %s) %s)" % (" ".join(S(pretty.rule(parse(r))) for r in rs), " ".join(ops))
         out.append((as_text(rules), "original-t%d" % k))
-        for kind in ("suffix", "prefix", "mixed"):
+        for kind in ("suffix", "prefix", "mixed", "long-prefix"):
             out.append((as_text([rename_rule(r, text_scheme(kind)) for r in rules]), "%s-t%d" % (kind, k)))
     # witness of the known finding: join(..) turns an UNBOUND variable into text that contains its name
     wit = [rule(cplx("f", var(0, "$X"), var(0, "$Y")), bip("unify", var(0, "$Y"), fn("join", var(0, "$X"), atom("hello"))))]
@@ -88,7 +93,7 @@ def known_class(case, tag):
 
 RULE = ("random programs (cut, not, print, disjunctions, built-ins, recursive library predicates) solved as written and under "
         "four renamings of the variables of every clause: every clause uses $X,$Y,$Z.. in order of first occurrence; every "
-        "clause reuses the query's names $A,$B,..; the clause's own names permuted; unrelated fresh names. Relation on the "
+        "clause reuses the query's names $A,$B,..; the clause's own names permuted; unrelated fresh names; long names that agree in their first 16 / 32 characters and non-ASCII names. Relation on the "
         "implementation's own observations: same answers in the same order (resolved query compared up to renaming of unbound "
         "variables), same solve/solve_all texts and same output (variable names and ids in printed unbound variables masked). "
         "The same for programs given as SOURCE TEXT (parse_rule / parse_query), renamed to names that differ only after an underscore "
